@@ -51,7 +51,7 @@ VARIABLES pc,        \* g -> [op, p, i]   op = "idle" between operations; path p
           badunlock, \* Unlock/RUnlock of a mutex not held that way (Go: fatal error)
           resets,    \* some "nil"/"other" store happened
           appended,  \* set of <<v, id>> whose append store was executed
-          early      \* some operation entered the user's function ("forward") while its own append was still ahead
+          early      \* some operation entered the user's function ("forward") while a store of its own (the record) was still ahead
 
 vars == <<pc, left, mem, snap, lock, cand, accessed, lost, badunlock, resets, appended, early>>
 
@@ -125,7 +125,7 @@ Step(g) ==
           \* "forward" = the user's function is entered (kept only in the paths of the order configuration): the record of
           \* this very call must already have been appended
           /\ early' = (early \/ (path[pc[g].i].op = "forward"
-                                  /\ \E j \in (pc[g].i + 1)..Len(path) : path[j].op = "write" /\ path[j].kind = "append"))
+                                  /\ \E j \in (pc[g].i + 1)..Len(path) : path[j].op = "write"))
           /\ pc' = [pc EXCEPT ![g].i = @ + 1]
           /\ UNCHANGED left
 
